@@ -43,7 +43,7 @@ def _mk_self(ctx, name='self'):
     return sym(name, attrs={'algebra': alg}, isinstance_of=('MultiVector',)), alg, r
 
 
-def vc_mv_delegations(H, methods_binary=None, methods_unary=None):
+def vc_mv_delegations(H, methods_binary=None, methods_unary=None, scalar_left=False):
     for meth, (op, refl) in BINARY.items():
         if methods_binary is not None and meth not in methods_binary:
             continue
@@ -58,7 +58,9 @@ def vc_mv_delegations(H, methods_binary=None, methods_unary=None):
             args = (other, me) if refl else (me, other)
             exp = Rec('call', Rec('attr', alg, op), args, {})
             ok = same(r, exp)
-            if not ok and op in COMMUTATIVE:
+            # scalar_left (C11): the reflected forms are only reached with a plain number on the left; for these operators
+            # number op x and x op number are the same element, so either operand order is accepted there
+            if not ok and (op in COMMUTATIVE or (scalar_left and refl and op in ('gp', 'op', 'ip', 'sp', 'cp', 'acp'))):
                 ok = same(r, Rec('call', Rec('attr', alg, op), args[::-1], {}))
             ctx.oblige(f'post: {meth} == algebra.{op}({"other, self" if refl else "self, other"})', bool(ok),
                        meta={'got': repr(r), 'expected': repr(exp)})
